@@ -427,58 +427,93 @@ def check_L15(ctx, rep):
                     n = n['a'][0]; continue
                 return None
 
-        t = strip(b['tree'])
-        stmts = t['ss'] if t.get('k') == 'block' else []
-        ok = True
-        for s in stmts:
-            if s['k'] == 'let' and 'i' in s and s['p'].get('k') == 'bind':
-                pl = place(s['i'])
-                if pl is not None:
-                    alias[s['p']['id']] = pl[0]
-                continue
-            if s['k'] not in ('expr', 'semi'):
-                continue
-            e = strip(s['e'])
-            if e.get('k') == 'assign':
+        class _Unrec(Exception):
+            pass
+
+        def step(e, st):
+            """one effectful expression on one symbolic state -> list of successor states (an `if` forks: the analysis is
+            path-enumerating, conditions are not interpreted - every path has to end in the required state)"""
+            e = strip(e)
+            k = e.get('k')
+            if k == 'assign':
                 l, r = place(e['l']), place(e['r'])
                 if l is None or r is None:
-                    ok = False; continue
-                state[l] = state[r]
-            elif e.get('k') == 'mcall' and e['m'] == 'combine':
+                    raise _Unrec()
+                st = dict(st); st[l] = st[r]
+                return [st]
+            if k == 'mcall' and e['m'] == 'combine':
                 l = place(e['r'])
                 arg = strip(e['a'][0])
                 r = place(arg)
                 if l is None or r is None:
-                    ok = False; continue
-                state[l] = state[l] | state[r]
+                    raise _Unrec()
+                st = dict(st); st[l] = st[l] | st[r]
                 # std::mem::take empties the source
                 c = callee(arg)
                 if c and cname(c).endswith('mem::take'):
-                    state[r] = frozenset()
-            else:
-                ok = False
-        if 'e' in t:
-            e = strip(t['e'])
-            if e.get('k') == 'mcall' and e['m'] == 'combine':
-                l = place(e['r']); arg = strip(e['a'][0]); r = place(arg)
-                if l is not None and r is not None:
-                    state[l] = state[l] | state[r]
-                    c = callee(arg)
-                    if c and cname(c).endswith('mem::take'):
-                        state[r] = frozenset()
-                else:
-                    ok = False
-        if not ok:
+                    st[r] = frozenset()
+                return [st]
+            if k == 'if':
+                # the one condition that is interpreted: `[!]<place>...is_empty()` empties the place on the branch where it holds
+                c = strip(e['c']); neg = False
+                while c.get('k') == 'unary' and c.get('op') == 'not':
+                    c = strip(c['e']); neg = not neg
+                emp = place(c['r']) if c.get('k') == 'mcall' and c['m'] == 'is_empty' else None
+                st_t, st_f = st, st
+                if emp is not None:
+                    st_e = dict(st); st_e[emp] = frozenset()
+                    st_t, st_f = (st, st_e) if neg else (st_e, st)
+                out = run_block(e['th'], [st_t])
+                out += run_block(e['el'], [st_f]) if e.get('el') is not None else [st_f]
+                return out
+            if k == 'block':
+                return run_block(e, [st])
+            raise _Unrec()
+
+        def run_block(t, sts):
+            t = strip(t)
+            if t.get('k') != 'block':
+                out = []
+                for st in sts:
+                    out += step(t, st)
+                return out
+            for s in t.get('ss', []):
+                if s['k'] == 'let' and 'i' in s and s['p'].get('k') == 'bind':
+                    pl = place(s['i'])
+                    if pl is not None:
+                        alias[s['p']['id']] = pl[0]
+                    continue
+                if s['k'] not in ('expr', 'semi'):
+                    continue
+                nxt = []
+                for st in sts:
+                    nxt += step(s['e'], st)
+                sts = nxt
+            if 'e' in t:
+                nxt = []
+                for st in sts:
+                    nxt += step(t['e'], st)
+                sts = nxt
+            return sts
+
+        try:
+            finals = run_block(b['tree'], [state])
+        except _Unrec:
             raise Broken('L15: statement shape of %s::%s not recognised' % (tyname, MERGE))
-        res = {'total.combined': state[('total', 'combined')], 'delta.old': state[('delta', 'old')],
-               'delta.combined': state[('delta', 'combined')], 'new': state[('new', 'combined')]}
-        results[tyname] = res
-        rep.inst('L15', '%s: %s' % (tyname, {k: ''.join(sorted(v)) for k, v in res.items()}))
         want = {'total.combined': frozenset('D'), 'delta.old': frozenset('D'), 'delta.combined': frozenset('DN'), 'new': frozenset()}
-        if res != want:
+        bad = None
+        for state in finals:
+            res = {'total.combined': state[('total', 'combined')], 'delta.old': state[('delta', 'old')],
+                   'delta.combined': state[('delta', 'combined')], 'new': state[('new', 'combined')]}
+            if res != want and bad is None:
+                bad = res
+        res = bad or want
+        results[tyname] = res
+        rep.inst('L15', '%s: %d path(s): %s' % (tyname, len(finals), {k: ''.join(sorted(v)) for k, v in res.items()}))
+        if bad is not None:
             rep.viol('L15', b['path'], 'merge-sequence',
-                     'eqrel merge leaves %s (expected total.combined=D, delta.old=D, delta.combined=D+N, new=empty)' % (
-                         {k: ''.join(sorted(v)) for k, v in res.items()},))
+                     'eqrel merge leaves %s on some path (%d paths; expected total.combined=D, delta.old=D, delta.combined=D+N, '
+                     'new=empty on every path)' % ({k: ''.join(sorted(v)) for k, v in res.items()}, len(finals)))
     vals = list(results.values())
     if len(vals) == 2 and vals[0] != vals[1]:
         rep.viol('L15', 'eqrel_ind/ceqrel_ind', 'siblings-disagree', 'serial and parallel eqrel merges compute different states')
